@@ -30,10 +30,10 @@ CONSTANTS
   Keep
 
 VARIABLES
-  \* @type: Seq({k: Int, v: Int});
+  \* @type: Seq({k: Int, r: Int, v: Int});
   slots,
   \* the call made by the last step and what it returned
-  \* @type: {op: Str, k: Int, v: Int, found: Bool, ret: Int};
+  \* @type: {op: Str, k: Int, r: Int, v: Int, found: Bool, ret: Int, retr: Int};
   last,
   \* retain in progress: the slot it looks at next (0 = no retain is running) ...
   \* @type: Int;
@@ -42,16 +42,19 @@ VARIABLES
   \* @type: Set(<<Int, Int>>);
   d0
 
-\* @type: (Seq({k: Int, v: Int}), Int) => Int;
+\* @type: (Seq({k: Int, r: Int, v: Int}), Int) => Int;
 Find(s, k) ==
   IF \E i \in DOMAIN s : s[i].k = k
   THEN CHOOSE i \in DOMAIN s : s[i].k = k /\ \A j \in DOMAIN s : j < i => s[j].k # k
   ELSE 0
 
-\* @type: Seq({k: Int, v: Int}) => Set(<<Int, Int>>);
+\* @type: Seq({k: Int, r: Int, v: Int}) => Set(<<Int, Int>>);
 Abs(s) == {<<s[i].k, s[i].v>> : i \in DOMAIN s}
-\* @type: Seq({k: Int, v: Int}) => Set(Int);
+\* @type: Seq({k: Int, r: Int, v: Int}) => Set(Int);
 Keys(s) == {s[i].k : i \in DOMAIN s}
+\* which key OBJECT stands for a key (stored-key identity, C12)
+\* @type: Seq({k: Int, r: Int, v: Int}) => Set(<<Int, Int>>);
+Ids(s) == {<<s[i].k, s[i].r>> : i \in DOMAIN s}
 
 Inv ==
   /\ Len(slots) <= Cap
@@ -69,49 +72,51 @@ IndInv == Inv /\ RInv
 
 ConstInit == Cap \in 0..24 /\ Keep \in SUBSET (0..30)
 
-NoCall == [op |-> "none", k |-> 0, v |-> 0, found |-> FALSE, ret |-> 0]
+NoCall == [op |-> "none", k |-> 0, r |-> 0, v |-> 0, found |-> FALSE, ret |-> 0, retr |-> 0]
 Init == slots = <<>> /\ last = NoCall /\ ri = 0 /\ d0 = {}
 \* an arbitrary state satisfying the invariant (for the inductive step)
 IndInit == slots = Gen(24) /\ ri \in 0..25 /\ d0 = Gen(24) /\ IndInv /\ last = NoCall
 
 \* ---------------------------------------------------------------- steps --
 Idle == ri = 0 /\ UNCHANGED <<ri, d0>>       \* (&mut self: no other call runs during a retain)
-Call(o) == [op |-> o, k |-> 0, v |-> 0, found |-> FALSE, ret |-> 0]
+Call(o) == [op |-> o, k |-> 0, r |-> 0, v |-> 0, found |-> FALSE, ret |-> 0, retr |-> 0]
 
 \* map.rs get / contains_key / get_mut: linear scan of the live prefix
 Get(k) ==
   LET i == Find(slots, k) IN
   /\ Idle /\ UNCHANGED slots
-  /\ last' = [op |-> "get", k |-> k, v |-> 0, found |-> i # 0, ret |-> IF i # 0 THEN slots[i].v ELSE 0]
+  /\ last' = [Call("get") EXCEPT !.k = k, !.found = i # 0, !.ret = IF i # 0 THEN slots[i].v ELSE 0, !.retr = IF i # 0 THEN slots[i].r ELSE 0]
 
 \* map.rs insert_ii: overwrite the value in place when found, else append when there is room,
 \* else panic (no change)
-Insert(k, v) ==
-  LET i == Find(slots, k) IN
+\* (upd: insert_key_value / Set::replace store the NEW key object; insert keeps the stored one - C12)
+Insert(k, r, v, upd) ==
+  LET i == Find(slots, k)
+      c == [Call(IF upd THEN "insert_kv" ELSE "insert") EXCEPT !.k = k, !.r = r, !.v = v] IN
   /\ Idle
   /\ IF i # 0
-     THEN /\ slots' = [slots EXCEPT ![i] = [k |-> k, v |-> v]]
-          /\ last' = [op |-> "insert", k |-> k, v |-> v, found |-> TRUE, ret |-> slots[i].v]
+     THEN /\ slots' = [slots EXCEPT ![i] = [k |-> k, r |-> IF upd THEN r ELSE slots[i].r, v |-> v]]
+          /\ last' = [c EXCEPT !.found = TRUE, !.ret = slots[i].v, !.retr = slots[i].r]
      ELSE IF Len(slots) < Cap
-          THEN /\ slots' = Append(slots, [k |-> k, v |-> v])
-               /\ last' = [op |-> "insert", k |-> k, v |-> v, found |-> FALSE, ret |-> 0]
+          THEN /\ slots' = Append(slots, [k |-> k, r |-> r, v |-> v])
+               /\ last' = c
           ELSE /\ UNCHANGED slots
-               /\ last' = [op |-> "insert_full", k |-> k, v |-> v, found |-> FALSE, ret |-> 0]
+               /\ last' = [c EXCEPT !.op = "insert_full"]
 
 \* map.rs remove: scan, then remove_index_read - the last live slot moves into the hole
 Remove(k) ==
   LET i == Find(slots, k)
       n == Len(slots) IN
   /\ Idle
-  /\ IF i = 0 THEN UNCHANGED slots /\ last' = [op |-> "remove", k |-> k, v |-> 0, found |-> FALSE, ret |-> 0]
+  /\ IF i = 0 THEN UNCHANGED slots /\ last' = [Call("remove") EXCEPT !.k = k]
      ELSE /\ slots' = SubSeq([slots EXCEPT ![i] = slots[n]], 1, n - 1)
-          /\ last' = [op |-> "remove", k |-> k, v |-> 0, found |-> TRUE, ret |-> slots[i].v]
+          /\ last' = [Call("remove") EXCEPT !.k = k, !.found = TRUE, !.ret = slots[i].v, !.retr = slots[i].r]
 
 \* IntoIter::next / Drain: the last pair leaves
 PopBack ==
   /\ Idle /\ Len(slots) > 0
   /\ slots' = SubSeq(slots, 1, Len(slots) - 1)
-  /\ last' = [op |-> "pop", k |-> slots[Len(slots)].k, v |-> 0, found |-> TRUE, ret |-> slots[Len(slots)].v]
+  /\ last' = [Call("pop") EXCEPT !.k = slots[Len(slots)].k, !.found = TRUE, !.ret = slots[Len(slots)].v, !.retr = slots[Len(slots)].r]
 
 Clear == Idle /\ slots' = <<>> /\ last' = Call("clear")
 
@@ -125,7 +130,7 @@ RetainEnd == ri = Len(slots) + 1 /\ ri' = 0 /\ UNCHANGED <<slots, d0>> /\ last' 
 
 Next ==
   \/ \E k \in 0..30 : Get(k)
-  \/ \E k \in 0..30, v \in 0..2 : Insert(k, v)
+  \/ \E k \in 0..30, r \in 0..1, v \in 0..2, upd \in BOOLEAN : Insert(k, r, v, upd)
   \/ \E k \in 0..30 : Remove(k)
   \/ PopBack
   \/ Clear
@@ -141,16 +146,20 @@ Refines ==
        /\ D2 = D
        /\ c.found = (c.k \in Keys(slots))
        /\ c.found => <<c.k, c.ret>> \in D
-  /\ c.op = "insert" =>
+  /\ c.op \in {"insert", "insert_kv"} =>
        /\ c.found = (c.k \in Keys(slots))
-       /\ c.found => <<c.k, c.ret>> \in D                      \* the old value comes back
+       /\ c.found => <<c.k, c.ret>> \in D /\ <<c.k, c.retr>> \in Ids(slots)      \* the old value (and, for insert_kv, the old key object) comes back
        /\ D2 = {p \in D : p[1] # c.k} \union {<<c.k, c.v>>}
+       \* stored-key identity: insert keeps the key object that was stored, insert_key_value swaps it
+       /\ Ids(slots') = {p \in Ids(slots) : p[1] # c.k}
+                          \union {<<c.k, IF c.found /\ c.op = "insert" THEN c.retr ELSE c.r>>}
   /\ c.op = "insert_full" =>                                   \* only a full map rejects, and only a new key
        /\ D2 = D /\ Len(slots) = Cap /\ c.k \notin Keys(slots)
   /\ c.op = "remove" =>
        /\ c.found = (c.k \in Keys(slots))
-       /\ c.found => <<c.k, c.ret>> \in D
+       /\ c.found => <<c.k, c.ret>> \in D /\ <<c.k, c.retr>> \in Ids(slots)
        /\ D2 = {p \in D : p[1] # c.k}
+       /\ Ids(slots') = {p \in Ids(slots) : p[1] # c.k}            \* no other key object is disturbed
   /\ c.op = "pop" =>
        /\ <<c.k, c.ret>> \in D
        /\ D2 = D \ {<<c.k, c.ret>>}
